@@ -147,7 +147,7 @@ class Workspace:
         self.kind = kind
         self.crate_attrs = crate_attrs
         self.prelude = prelude
-        self.edition = edition
+        self.edition = os.environ.get("VERIF_EDITION", edition)
         self.extra_crates = extra_crates or {}   # name -> {"Cargo.toml":..., "src/lib.rs":...}
         self.nshards = nshards
         self.cases = []
@@ -477,7 +477,7 @@ class Report:
         self.evaluations = 0
         self.nontrivial = set()
         self.samples = []
-        self.extra = {}
+        self.extra = {"client_edition": os.environ.get("VERIF_EDITION", "2021")}
         self.assumptions = []
         self.rule = ""
         self.exhaustive = None
